@@ -888,7 +888,17 @@ std::size_t CppCheck::calculateHash(const Preprocessor& preprocessor, const std:
         toolinfo << a.args;
     }
     toolinfo << mSettings.premiumArgs;
-    // TODO: do we need to add more options?
+    // options that change the results of the analysis
+    toolinfo << (mSettings.certainty.isEnabled(Certainty::inconclusive) ? 'i' : ' ');
+    toolinfo << (mSettings.checks.isEnabled(Checks::unusedFunction) ? 'u' : ' ');
+    toolinfo << (mSettings.checks.isEnabled(Checks::missingInclude) ? 'm' : ' ');
+    for (const std::string &u : mSettings.userUndefs)
+        toolinfo << u << ';';
+    toolinfo << mSettings.standards.getC() << ';';
+    toolinfo << mSettings.standards.getCPP() << ';';
+    toolinfo << mSettings.platform.toString() << ';';
+    for (const std::string &l : mSettings.libraries)
+        toolinfo << l << ';';
     mSuppressions.nomsg.dump(toolinfo, filePath);
     return preprocessor.calculateHash(toolinfo.str());
 }
